@@ -184,6 +184,29 @@ C04Event(preTok, ev, postTok) ==
           /\ ev.op = "purge" => HeldToks(postTok) = {}
 
 (* ---------------------------------------------------------------------- *)
+(* C18  panic safety.  A call into user code panicked somewhere inside an  *)
+(* earlier (or this) operation.  Entries may leak and operations may fail, *)
+(* but: nothing is dropped twice (this event's drops are disjoint from     *)
+(* everything dropped or handed back before, and from each other), nothing *)
+(* handed back was already released, no released object and no freed node  *)
+(* is still reachable through the cache, and the harness' memory monitor   *)
+(* (magic fields, quarantine, double-free detection) saw no anomaly.       *)
+(* ev.gone_before: tokens dropped or handed back earlier in this test.     *)
+(* ---------------------------------------------------------------------- *)
+C18Event(ev, hasObs, postTok, audit) ==
+  LET gone == SeqToSet(ev.gone_before)
+      D == SeqToSet(ev.drops)
+      out == IF "out" \in DOMAIN ev THEN SeqToSet(ev.out) ELSE {}
+  IN /\ ev.anomalies = <<>>
+     /\ Cardinality(D) = Len(ev.drops)
+     /\ D \cap gone = {} /\ out \cap gone = {} /\ out \cap D = {}
+     /\ IF hasObs
+        THEN /\ HeldToks(postTok) \cap (gone \cup D \cup out) = {}
+             /\ C04Distinct(postTok)
+             /\ \A i \in 1..Len(audit) : audit[i].freed_reachable = 0
+        ELSE TRUE
+
+(* ---------------------------------------------------------------------- *)
 (* C03  structural audit of every inner intrusive list                     *)
 (* a.fwd / a.bwd: node ids met walking next / prev between the sentinels;  *)
 (* a.idx: for every hash-index entry <<node the index key points into,     *)
